@@ -72,6 +72,7 @@ type simInline struct {
 }
 
 type simHistOpts struct {
+	CancelRounds      bool // the sequencing context of a round is sometimes cancelled before one of its operations
 	CreateRace        bool // the log is sometimes created by two concurrent CreateLog calls, and CreateLog is sometimes run again over the existing log
 	Admission         bool // a bounded pool (Config.PoolSize) and low-priority submissions: rejections and evictions happen
 	RoundDuringSubmit bool // sometimes a whole sequencing round runs inside a storage operation of a submission (issuer upload)
@@ -91,6 +92,7 @@ type simHistOpts struct {
 
 // simHistStats describes what a generated history actually exercised.
 type simHistStats struct {
+	CancelledRounds                                                                                         int
 	GiantRounds                                                                                             int
 	HugeRounds                                                                                              int
 	Evictions                                                                                               int
@@ -720,7 +722,32 @@ func (h *simHist) run(t *rapid.T) error {
 		if simVirtualTime && rapid.IntRange(0, 2).Draw(t, "tileBarrier") == 1 {
 			s.w.barrierNext = true // this round's parallel tile uploads overlap in time
 		}
-		res := s.round(h.in, faults)
+		roundCtx, cancelRound := context.WithCancel(context.Background())
+		cancelled := false
+		if h.opts.CancelRounds && rapid.IntRange(0, 7).Draw(t, "cancelRound") == 5 {
+			// the process is told to stop (SIGINT, or another log's fatal error) while this round is under way: the
+			// sequencing context is cancelled before one of the round's storage or lock operations; the object store
+			// itself does not look at the context
+			at := rapid.IntRange(1, 12).Draw(t, "cancelAt")
+			inner, count, in0 := s.w.yield, 0, h.in
+			s.w.yield = func(p *simProc, op *simOp) {
+				if p == in0.p && p.phase == "round" {
+					if count++; count == at {
+						cancelRound()
+						cancelled = true
+						h.st.descf("round %d: sequencing context cancelled before %s %s", r, op.Kind, op.Class)
+					}
+				}
+				if inner != nil {
+					inner(p, op)
+				}
+			}
+		}
+		res := s.roundCtx(roundCtx, h.in, faults)
+		cancelRound()
+		if cancelled {
+			h.st.CancelledRounds++
+		}
 		s.w.yield = nil
 		if len(h.httpSubs) > 0 {
 			nack := len(s.acks)
@@ -791,7 +818,7 @@ func (h *simHist) run(t *rapid.T) error {
 			if res.Failed > 0 {
 				h.st.FailedPools++
 			}
-			restart = rapid.IntRange(0, 5).Draw(t, "restart") == 0
+			restart = rapid.IntRange(0, 5).Draw(t, "restart") == 0 || cancelled // a stopped process is started again
 			if h.opts.KillAfter && len(res.Acks) > 0 {
 				switch rapid.IntRange(0, 5).Draw(t, "killAfterAck") {
 				case 0: // the process dies right after acknowledging
